@@ -20,6 +20,7 @@ model = M.model
 dt = _d.datetime
 td = _d.timedelta
 US_DAY = 86400 * 10 ** 6
+_TD_US = z3.Function("td_round_us", z3.RealSort(), z3.IntSort())
 
 
 def _iv(v):
@@ -131,7 +132,11 @@ def dt_binop(it, op, a, b):
         return mk_td(_t(to_lin(it, a)) - _t(to_lin(it, b)))
     if isinstance(op, (ast.Add, ast.Sub)) and is_dt(a) and is_td(b):
         la, ub = _t(to_lin(it, a)), _t(td_us(b))
-        return SDt(lin=mk_int(la + ub if isinstance(op, ast.Add) else la - ub))
+        r = la + ub if isinstance(op, ast.Add) else la - ub
+        # datetime arithmetic leaves 0001-01-01 .. 9999-12-31: OverflowError
+        if not it.decide(z3.And(r >= 0, r < 3652059 * US_DAY)):
+            it.py_raise(OverflowError, "date value out of range")
+        return SDt(lin=mk_int(r))
     if isinstance(op, ast.Add) and is_td(a) and is_dt(b):
         return dt_binop(it, op, b, a)
     if isinstance(op, (ast.Add, ast.Sub)) and is_td(a) and is_td(b):
@@ -209,6 +214,9 @@ def _need_fields(v):
 
 
 def dt_isoformat(it, v, sep="T", timespec="auto"):
+    if v.lin is not None:
+        from .sym import SUnb
+        return SUnb("isoformat")  # some string: its content is not tracked for linear datetimes
     _need_fields(v)
     if isinstance(sep, SStr) or isinstance(timespec, SStr):
         raise Unsupported("symbolic isoformat args")
@@ -235,9 +243,18 @@ def dt_isoformat(it, v, sep="T", timespec="auto"):
 
 
 def dt_strftime(it, v, fmt):
-    _need_fields(v)
     if not isinstance(fmt, str):
         raise Unsupported("symbolic strftime format")
+    if v.lin is not None:
+        import re as _re
+        if set(_re.findall(r"%(.)", fmt)) <= set("HMSf%"):
+            # time-of-day fields of a linear datetime: lin mod one day
+            t = int_term(v.lin) % US_DAY
+            v = SDt(1, 1, 1, mk_int(t / (3600 * 10 ** 6)), mk_int((t / (60 * 10 ** 6)) % 60), mk_int((t / 10 ** 6) % 60), mk_int(t % 10 ** 6))
+        else:
+            from .sym import SUnb
+            return SUnb("strftime")
+    _need_fields(v)
     out = []
     i = 0
     while i < len(fmt):
@@ -371,6 +388,10 @@ def m_fromisoformat(it, args, kw):
     s = args[-1]
     if isinstance(s, str):
         return it.call_real(dt.fromisoformat, [s], {})
+    if type(s).__name__ == "SUnb":
+        if it.decide(z3.Bool(it.ex.fresh_name("fromiso_ok"))):
+            return fresh_dt(it, "fromiso")
+        it.py_raise(ValueError, "Invalid isoformat string")
     if not isinstance(s, SStr):
         it.py_raise(TypeError, "fromisoformat: argument must be str")
     cs = s.chars
@@ -415,6 +436,31 @@ def fresh_dt(it, base, linear=False):
                           f[2] <= days_in_month_term(f[0], f[1]), f[3] >= 0, f[3] <= 23,
                           f[4] >= 0, f[4] <= 59, f[5] >= 0, f[5] <= 59, f[6] >= 0, f[6] <= 999999))
     return SDt(*[SInt(x) for x in f])
+
+
+@model(dt.fromtimestamp)
+def m_fromtimestamp(it, args, kw):
+    x = args[-1]
+    if not is_symbolic(x):
+        return it.call_real(dt.fromtimestamp, [x], kw)
+    if kw or len(args) > 2:
+        raise Unsupported("fromtimestamp(tz)")
+    if isinstance(x, (SInt, SBool)):
+        inr = z3.And(int_term(x) >= 86400, int_term(x) <= 253402214400)
+    elif isinstance(x, SFloat) and it.float_mode == "real":
+        inr = z3.And(x.t >= 86400, x.t <= 253402214400)
+    else:
+        raise Unsupported("fromtimestamp of this value")
+    # within one day of the representable range (any time zone): a datetime; outside:
+    # ValueError (year out of range) or OverflowError (platform localtime), per the docs
+    if it.decide(inr):
+        return fresh_dt(it, "fromts", linear=True)
+    k = it.ex.fresh_name("fromts_fail")
+    if it.decide(z3.Bool(k + "_ok")):
+        return fresh_dt(it, "fromts", linear=True)
+    if it.decide(z3.Bool(k + "_value")):
+        it.py_raise(ValueError, "year is out of range")
+    it.py_raise(OverflowError, "timestamp out of range for platform time_t")
 
 
 @model(dt.strptime)
@@ -470,7 +516,7 @@ def m_td(it, args, kw):
             # CPython rounds half to even on the exact (double) product; the product's own
             # rounding error is bounded by the same relative error: over-approximate by
             # allowing either neighbour when within 2^-40 of a tie
-            us = z3.Int(it.ex.fresh_name("td_us"))
+            us = _TD_US(r)  # functional: the same product rounds to the same microseconds
             eps = z3.RealVal(1) / (2 ** 20)
             it.ex.add_fact(z3.And(z3.ToReal(us) >= r - half - eps, z3.ToReal(us) <= r + half + eps))
             total = total + us
